@@ -23,7 +23,7 @@ Relay == ArrV(<< Arr(<<F(Const(0)), F(PortN), F(Alt(<<Null, BytesR(4,4)>>)), F(A
 Schema == [
   transaction |-> Arr(<<F(Ref("body")), F(Ref("witness_set")), F(Bool), F(Alt(<<Null, Ref("auxiliary_data")>>))>>),
   body |-> Map(<<K(0, Set(Ref("input"), 0)), K(1, List(Ref("output"), 0)), K(2, Coin), Q(3, UInt), Q(4, Set(Ref("certificate"), 1)),
-                 Q(5, Table(RewardAcct, Coin, 1)), Q(6, Any), Q(7, H32), Q(8, UInt), Q(9, Ref("mint")), Q(11, H32),
+                 Q(5, Table(RewardAcct, Coin, 1)), Q(6, Arr(<<F(Table(H28, Ref("protocol_param_update"), 0)), F(U32)>>)), Q(7, H32), Q(8, UInt), Q(9, Ref("mint")), Q(11, H32),
                  Q(13, Set(Ref("input"), 1)), Q(14, Set(H28, 1)), Q(15, UIntMax(1)), Q(16, Ref("output")), Q(17, Coin),
                  Q(18, Set(Ref("input"), 1)), Q(19, Ref("voting_procedures")), Q(20, Set(Ref("proposal"), 1)), Q(21, Coin), Q(22, PosUInt)>>),
   input |-> Arr(<<F(H32), F(UIntMax(65535))>>),
@@ -53,10 +53,28 @@ Schema == [
   voting_procedure |-> Arr(<<F(UIntMax(2)), F(AnchorOrNull)>>),
   voting_procedures |-> Table(Ref("voter"), Table(Ref("gov_action_id"), Ref("voting_procedure"), 1), 1),
   proposal |-> Arr(<<F(Coin), F(RewardAcct), F(Ref("gov_action")), F(Anchor)>>),
-  \* UNSURE: the bodies of actions 0..5 are left open (any trailing elements)
-  gov_action |-> ArrV(<< Arr(<<F(Const(0)), O(Any), O(Any), O(Any), O(Any)>>), Arr(<<F(Const(1)), O(Any), O(Any), O(Any), O(Any)>>), Arr(<<F(Const(2)), O(Any), O(Any), O(Any), O(Any)>>),
-                         Arr(<<F(Const(3)), O(Any), O(Any), O(Any), O(Any)>>), Arr(<<F(Const(4)), O(Any), O(Any), O(Any), O(Any)>>), Arr(<<F(Const(5)), O(Any), O(Any), O(Any), O(Any)>>),
+  \* transcribed from the shapes quoted in the decoders' length checks (rust/src/serialization/governance/proposals/*.rs)
+  gov_action |-> ArrV(<< Arr(<<F(Const(0)), F(Alt(<<Null, Ref("gov_action_id")>>)), F(Ref("protocol_param_update")), O(Alt(<<Null, H28>>))>>),
+                         Arr(<<F(Const(1)), F(Alt(<<Null, Ref("gov_action_id")>>)), F(Arr(<<F(U32), F(U32)>>))>>),
+                         Arr(<<F(Const(2)), F(Table(RewardAcct, Coin, 0)), O(Alt(<<Null, H28>>))>>),
+                         Arr(<<F(Const(3)), F(Alt(<<Null, Ref("gov_action_id")>>))>>),
+                         Arr(<<F(Const(4)), F(Alt(<<Null, Ref("gov_action_id")>>)), F(Set(Cred, 0)), F(Table(Cred, U32, 0)), F(UnitInterval)>>),
+                         Arr(<<F(Const(5)), F(Alt(<<Null, Ref("gov_action_id")>>)), F(Arr(<<F(Anchor), F(Alt(<<Null, H28>>))>>))>>),
                          Arr(<<F(Const(6))>>) >>),
+  \* keys and value types from rust/src/serialization/protocol_param_update.rs (12..14 are the pre-Conway keys the library still carries)
+  protocol_param_update |-> Map(<<Q(0, Coin), Q(1, Coin), Q(2, U32), Q(3, U32), Q(4, U32), Q(5, Coin), Q(6, Coin), Q(7, U32), Q(8, U32), Q(9, UnitInterval), Q(10, UnitInterval), Q(11, UnitInterval),
+                                 Q(12, UnitInterval), Q(13, ArrV(<<Arr(<<F(Const(0))>>), Arr(<<F(Const(1)), F(H32)>>)>>)), Q(14, Arr(<<F(U32), F(U32)>>)), Q(16, Coin), Q(17, Coin),
+                                 Q(18, Table(UIntMax(2), List(IntN, 0), 0)), Q(19, Arr(<<F(UnitInterval), F(UnitInterval)>>)), Q(20, Ref("ex_units")), Q(21, Ref("ex_units")), Q(22, U32), Q(23, U32), Q(24, U32),
+                                 Q(25, Arr(<<F(UnitInterval), F(UnitInterval), F(UnitInterval), F(UnitInterval), F(UnitInterval)>>)),
+                                 Q(26, Arr(<<F(UnitInterval), F(UnitInterval), F(UnitInterval), F(UnitInterval), F(UnitInterval), F(UnitInterval), F(UnitInterval), F(UnitInterval), F(UnitInterval), F(UnitInterval)>>)),
+                                 Q(27, U32), Q(28, U32), Q(29, U32), Q(30, Coin), Q(31, Coin), Q(32, U32), Q(33, UnitInterval)>>),
+  \* block header in the nested (Babbage) and the flattened (Alonzo) form the decoder accepts (rust/src/serialization/block/header_body.rs)
+  vrf_cert |-> Arr(<<F(BytesR(0, 64)), F(BytesR(80, 80))>>),
+  operational_cert |-> Arr(<<F(H32), F(U32), F(U32), F(BytesR(64, 64))>>),
+  header_body |-> Alt(<< Arr(<<F(U32), F(UInt), F(Alt(<<Null, H32>>)), F(H32), F(H32), F(Ref("vrf_cert")), F(U32), F(H32), F(Ref("operational_cert")), F(Arr(<<F(U32), F(U32)>>))>>),
+                         Arr(<<F(U32), F(UInt), F(Alt(<<Null, H32>>)), F(H32), F(H32), F(Ref("vrf_cert")), F(Ref("vrf_cert")), F(U32), F(H32), F(H32), F(U32), F(U32), F(BytesR(64, 64)), F(U32), F(U32)>>) >>),
+  header |-> Arr(<<F(Ref("header_body")), F(BytesR(448, 448))>>),
+  block |-> Arr(<<F(Ref("header")), F(List(Ref("body"), 0)), F(List(Ref("witness_set"), 0)), F(Table(U32, Ref("auxiliary_data"), 0)), F(List(U32, 0))>>),
   witness_set |-> Map(<<Q(0, Set(Ref("vkeywitness"), 1)), Q(1, Set(Ref("native_script"), 1)), Q(2, Set(Ref("bootstrap_witness"), 1)),
                         Q(3, Set(BytesR(0, 100000), 1)), Q(4, SetP(Ref("plutus_data"), 1)), Q(5, Ref("redeemers")),
                         Q(6, NF(Set(BytesR(0, 100000), 1), "plutus-v2v3")), Q(7, NF(Set(BytesR(0, 100000), 1), "plutus-v2v3"))>>),
